@@ -273,7 +273,10 @@ def run_one(rng, ctx):
     if len(ctx.samples) < 2 and len(classes) >= 3:
         ctx.sample({"steps": steps, "classes": classes})
     seen = set()
+    kw_coll = any(s_["op"] == "map_blocks_kwarg" for s_ in steps)
     for kind, msg, mech in problems:
+        if kw_coll and (mech.startswith("structure:dangling_dep") or mech.startswith("interpret:raise:TypeError:numpy_ndarray_object")):
+            mech += ":collection_kwarg"  # recorded finding: records of a Blockwise holding a dask collection in its kwargs
         if mech in seen:
             continue
         seen.add(mech)
